@@ -165,11 +165,12 @@ def cases(tier):
         dict(name="metamorphic.permute.n3", fn=h_metamorphic, params=dict(n=3, which="permute"), weight=5, **R),
         dict(name="metamorphic.translate.n3", fn=h_metamorphic, params=dict(n=3, which="translate"), weight=5, **R),
         dict(name="metamorphic.scale.n3", fn=h_metamorphic, params=dict(n=3, which="scale"), weight=5, **R),
+        dict(name="metamorphic.permute.n4", fn=h_metamorphic, params=dict(n=4, which="permute"), weight=40, **R),
     ]
     if tier == "thorough":
         cs += [dict(name="spec.n3.d2", fn=h_spec, params=dict(n=3, d=2), weight=60, soft=["nbc.*"], optional=True, **R),
                dict(name="spec.n4.d1", fn=h_spec, params=dict(n=4, d=1), weight=50, **R),
                dict(name="spec.n4.d1.keep3", fn=h_spec, params=dict(n=4, d=1, keep=3), weight=30, **R),
-               dict(name="metamorphic.permute.n4", fn=h_metamorphic, params=dict(n=4, which="permute"), weight=40, **R),
+               dict(name="metamorphic.translate.n4", fn=h_metamorphic, params=dict(n=4, which="translate"), weight=40, **R),
                dict(name="metamorphic.translate.n3.d2", fn=h_metamorphic, params=dict(n=3, which="translate", d=2), weight=40, soft=["nbc.*"], **R)]
     return cs
